@@ -445,3 +445,14 @@ func VF_C10_hrandfield() {
 	}
 	c10Post(m, st, "hrandfield")
 }
+
+// a refused HINCRBYFLOAT (increment that is not a number) changes nothing - in particular it does not
+// leave a freshly created empty hash behind
+func VF_C10_hincrbyfloat_bad_increment() {
+	m := hNewDb(2)
+	st := c10Pre(m, 2, vBytes)
+	bad := [][]byte{bs("abc"), bs(""), bs("1.2.3"), bs("--1")}[vfChoice("bad", 4)]
+	got := hExec(m, bs("hincrbyfloat"), bs("k"), bs("f"), bad)
+	vfAssert(got.k == rErr, "hincrbyfloat-bad-increment-reply")
+	c10Post(m, st, "hincrbyfloat-bad-increment")
+}
